@@ -321,7 +321,15 @@ Section Server.
 
   Definition on_reply (c : client) (r : reply) : client :=
     match r with
-    | PErr e => mkCl (c_map c) (CTold e) (c_off c) (c_ep c) (c_limit c) (c_recovered c)
+    | PErr e =>
+        (* an insufficient-state disconnect only leads to a recovery attempt when the client had
+           a live subscription before; otherwise it starts over *)
+        let e' := match e, c_phase c with
+                  | EInsufficient, CTold EInsufficient => EInsufficient
+                  | EInsufficient, _ => EUnrecoverable
+                  | _, _ => e
+                  end in
+        mkCl (c_map c) (CTold e') (c_off c) (c_ep c) (c_limit c) (c_recovered c)
     | PState entries cursor off ep =>
         let fresh := match c_phase c with CStatePages _ => false | _ => true end in
         let m := apply_entries (if fresh then (fun _ => None) else c_map c) entries in
